@@ -437,60 +437,65 @@ def r_types_cache(ck: Checker, rule: str = "R-TYPES-CACHE") -> None:
 
 
 # --------------------------------------------------------------------------- order key / reinstall
+def _field_of(st: ast.stmt) -> str | None:
+    """Which field an emitted top-level statement of a branch is about (self.<name> / _fld_<name>)."""
+    names = {n.attr for n in ast.walk(st) if isinstance(n, ast.Attribute) and isinstance(n.value, ast.Name) and n.value.id == "self"}
+    names |= {n.id[len("_fld_"):] for n in ast.walk(st) if isinstance(n, ast.Name) and n.id.startswith("_fld_")}
+    return next(iter(names)) if len(names) == 1 else None
+
+
 def r_order_key(ck: Checker, rule: str = "R-ORDER-KEY") -> None:
-    """Sorted branch first and sorted by field name; unsorted branch iterates the mapping itself."""
+    """Sorted branch: fields by name; unsorted branch: mapping order.  Decided on the emitted text: the generator is
+    evaluated (geneval) on a three-field mapping whose insertion order, name order and name-length order all differ."""
+    from ..geneval import Fld, TypeInfo, branches, parse_body, run_generator
+
     for gen, acc in GENERATORS.items():
         f = ck.repo.func(CODEGEN, gen)
-        loops = [n for n in walk_body(f.node.body) if isinstance(n, ast.For) and any(
-            isinstance(c, ast.Call) and dotted(c.func) == "_build_body" for c in ast.walk(n))]
-        if len(loops) != 2:
-            raise Unsupported(f"{gen}: expected 2 loops calling _build_body, found {len(loops)}", f.node)
-        loops.sort(key=lambda n: n.lineno)
-        # accumulator texts in program order: "if sort_keys:" ... "else:"
-        marks = []
-        for n in walk_body(f.node.body):
-            if isinstance(n, (ast.Assign, ast.AugAssign)) and isinstance(n.value, ast.Constant) and isinstance(n.value.value, str):
-                t = n.value.value.strip()
-                if t in ("if sort_keys:", "else:", "if not sort_keys:"):
-                    marks.append((n.lineno, t))
-        marks.sort()
+        fields = [(Fld("b"), TypeInfo(True)), (Fld("ab"), TypeInfo(False)), (Fld("c"), TypeInfo(False))]
+        cap = run_generator(ck.repo, gen, fields)
+        srt, uns = branches(parse_body(cap.body or ""))
+
+        def order(stmts: list[ast.stmt]) -> list[str | None]:
+            out: list[str | None] = []
+            for st in stmts:
+                n_ = _field_of(st)
+                if not out or out[-1] != n_:
+                    out.append(n_)
+            return out
+
+        so, uo = order(srt), order(uns)
         what = f"{gen}: the branch emitted under 'if sort_keys:' iterates fields sorted by name, the else-branch in mapping order"
-        if [t for _, t in marks] != ["if sort_keys:", "else:"] or not (marks[0][0] < loops[0].lineno < marks[1][0] < loops[1].lineno):
-            raise Unsupported(f"{gen}: branch markers {marks} / loops at {[l.lineno for l in loops]}", f.node)
-        s_it, u_it = loops[0].iter, loops[1].iter
-        ok_sorted = False
-        why = f"sorted branch iterates {norm(s_it)[:70]}"
-        if isinstance(s_it, ast.Call) and dotted(s_it.func) == "sorted" and len(s_it.args) == 1:
-            src = s_it.args[0]
-            keyf = next((k.value for k in s_it.keywords if k.arg == "key"), None)
-            rev = next((k.value for k in s_it.keywords if k.arg == "reverse"), None)
-            if (rev is None or is_const(rev, False)) and isinstance(keyf, ast.Lambda) and len(keyf.args.args) == 1:
-                p = keyf.args.args[0].arg
-                body = norm(keyf.body)
-                if isinstance(src, ast.Call) and isinstance(src.func, ast.Attribute) and src.func.attr == "items":
-                    ok_sorted = body == f"{p}[0].name"
-                elif (isinstance(src, ast.Call) and isinstance(src.func, ast.Attribute) and src.func.attr == "keys") or isinstance(src, ast.Name):
-                    ok_sorted = body == f"{p}.name"
-        ok_unsorted = (
-            (isinstance(u_it, ast.Call) and isinstance(u_it.func, ast.Attribute) and u_it.func.attr in ("items", "keys") and isinstance(u_it.func.value, ast.Name))
-            or isinstance(u_it, ast.Name)
-        )
-        if ok_sorted and ok_unsorted:
-            ck.holds(rule, f, loops[0], what, sorted_iter=norm(s_it), unsorted_iter=norm(u_it))
-        elif not ok_sorted:
-            ck.violation(rule, f, loops[0], what, construct=f"{gen}: {why}")
+        if None in so or None in uo or sorted(x for x in so if x) != ["ab", "b", "c"] or sorted(x for x in uo if x) != ["ab", "b", "c"]:
+            if sorted(set(x for x in so if x)) != ["ab", "b", "c"] and None not in so:
+                ck.violation(rule, f, f.node, what, construct=f"{gen}: sorted branch covers fields {so} of (b, ab, c)")
+                continue
+            if sorted(set(x for x in uo if x)) != ["ab", "b", "c"] and None not in uo:
+                ck.violation(rule, f, f.node, what, construct=f"{gen}: unsorted branch covers fields {uo} of (b, ab, c)")
+                continue
+            raise Unsupported(f"{gen}: emitted branches cannot be attributed to fields ({so} / {uo})", f.node)
+        if so != ["ab", "b", "c"]:
+            ck.violation(rule, f, f.node, what, construct=f"{gen}: sorted branch emits the fields in order {so} for the mapping (b, ab, c)")
+        elif uo != ["b", "ab", "c"]:
+            ck.violation(rule, f, f.node, what, construct=f"{gen}: unsorted branch emits the fields in order {uo} for the mapping (b, ab, c)")
         else:
-            ck.violation(rule, f, loops[1], what, construct=f"{gen}: unsorted branch iterates {norm(u_it)[:70]}")
-        # closure variable binding: local_vars[f"_fld_{f.name}"] = f in the first loop
-        tgt = loops[0].target
-        fvar = tgt.elts[0].id if isinstance(tgt, ast.Tuple) else tgt.id  # type: ignore[union-attr]
-        bind = [n for n in ast.walk(loops[0]) if isinstance(n, ast.Assign) and isinstance(n.targets[0], ast.Subscript)
-                and isinstance(n.targets[0].slice, ast.JoinedStr)]
+            ck.holds(rule, f, f.node, what, sorted_order=so, unsorted_order=uo)
+        # closure variable binding: every _fld_<name> the emitted text mentions is bound to the field of that name
+        used = {n.id for st in srt + uns for n in ast.walk(st) if isinstance(n, ast.Name) and n.id.startswith("_fld_")}
+        by_name = {fl.name: fl for fl, _ in fields}
         what2 = f"{gen}: the closure variable _fld_<name> is bound to the field of that name"
-        if len(bind) == 1 and norm(bind[0].targets[0].slice) == f"f'_fld_{{{fvar}.name}}'" and norm(bind[0].value) == fvar:
-            ck.holds(rule, f, bind[0], what2)
+        wrong = [u for u in sorted(used) if cap.local_vars.get(u) is not by_name.get(u[len("_fld_"):])]
+        if wrong:
+            ck.violation(rule, f, f.node, what2, construct=f"{gen}: closure binding of {wrong[0]} is {cap.local_vars.get(wrong[0])!r}")
         else:
-            ck.violation(rule, f, loops[0], what2, construct=f"{gen}: closure binding {[norm(b) for b in bind]}")
+            ck.holds(rule, f, f.node, what2, closure_vars=sorted(cap.local_vars))
+        # no fields: still a generator function
+        cap0 = run_generator(ck.repo, gen, [])
+        if gen != "_gen_get_properties_func":  # every node class has properties (id, content_id, origin)
+            what3 = f"{gen}: for a class without child fields the emitted accessor is an empty generator"
+            st0 = parse_body(cap0.body or "")
+            ok0 = any(isinstance(n, (ast.Yield, ast.YieldFrom)) for s0 in st0 for n in ast.walk(s0)) and not any(
+                isinstance(n, ast.Yield) and n.value is not None for s0 in st0 for n in ast.walk(s0))
+            (ck.holds if ok0 else ck.violation)(rule, f, f.node, what3, **({} if ok0 else {"construct": f"{gen}: no fields -> {cap0.body!r}"}))
 
 
 def r_reinstall(ck: Checker, rule: str = "R-REINSTALL") -> None:
